@@ -135,20 +135,34 @@ def corpus_cases(start):
         sel = [s.name for s in structs]
         res.append(Case(start + 2 + k, cs_, cs_.cmd_file("chain.go"), cs_.cmd_file("chain.go", sep=True), sel,
                         [cs_.cmd_types(sel), cs_.cmd_types(list(reversed(sel)))]))
+    # (the same case: Order renames Code by a map tag, Bill has an untagged Code: the tag map is per type)
     # a field of a nested struct type (makeSubMap): the nested type Line is declared in another file than the holders, so
     # `-file=model.go` does not list it while `-type=Order` ... must emit the same ToDest()/FromDest() calls for the holder
     srcn = histgen.HFile("model.go", [
-        S("Order", [F("Id", "int"), F("Name", "string"), F("PartLine", "Line"), F("PtrLine", "Line", ptr=True)]),
-        S("Bill", [F("Id", "int"), F("PartLine", "Line", ptr=True)])])
+        S("Order", [F("Id", "int"), F("Name", "string"), F("Code", "string", maptag="OrderNo"), F("PartLine", "Line"),
+                    F("PtrLine", "Line", ptr=True)]),
+        S("Bill", [F("Id", "int"), F("Code", "string"), F("PartLine", "Line", ptr=True)])])
     srcx = histgen.HFile("extra.go", [S("Line", [F("Qty", "int"), F("Sku", "string")])])
     destn = histgen.HFile("dest.go", [
-        S("Order", [F("Id", "int"), F("Name", "string"), F("PartLine", "Line"), F("PtrLine", "Line")]),
-        S("Bill", [F("Id", "int"), F("PartLine", "Line", ptr=True)]),
+        S("Order", [F("Id", "int"), F("Name", "string"), F("OrderNo", "string"), F("PartLine", "Line"), F("PtrLine", "Line")]),
+        S("Bill", [F("Id", "int"), F("Code", "string"), F("PartLine", "Line", ptr=True)]),
         S("Line", [F("Qty", "int"), F("Sku", "string")])])
     mn = histgen.Pkg("map", "src", [srcn, srcx], [], dest=[destn], destname="dest")
     sel = ["Order", "Bill"]
     res.append(Case(start + 4, mn, mn.cmd_file("model.go"), mn.cmd_file("model.go", sep=True), sel,
                     [mn.cmd_types(sel), mn.cmd_types(list(reversed(sel)))]))
+    # rest: the first client sets default headers on its embedded RestClient, the second does not (the header table is per client)
+    import random as _random
+    rs = histgen.gen_pkg(_random.Random(20260926), "rest")
+    ifs = [d for hf in rs.hfiles for d in hf.decls if isinstance(d, histgen.RIface)]
+    ifs[0].headers = [("X-Tenant", "t1"), ("Accept", "text/plain")]
+    for other in ifs[1:]:
+        other.headers = []
+    sel = generating(rs, rs.eligible())
+    aio, sep = rs.cmd_star(), rs.cmd_star(sep=True)
+    for c in (aio, sep):
+        rs.hfiles[0].gen.append("//go:generate go run github.com/lopolopen/shoot/cmd/shoot " + " ".join(c.argv()))
+    res.append(Case(start + 9, rs, aio, sep, sel, [rs.cmd_types(sel), rs.cmd_types(list(reversed(sel)))]))
     # the same package imported under different names by the files of two types, the names used in text shoot copies
     # verbatim (field types, def= values); driven from the module root with [dir] (inside the package directory goimports
     # would restore a lost renamed import from the sibling files): the all-in-one import block = union of the per-type ones
